@@ -477,4 +477,55 @@ def render (c : Cfg) (o : Opts) (fuel : Nat) : VRes × Str × St :=
   match execTemplate c o fuel St.init with
   | (r, σ) => (r, (σ.bufs.head?.map (·.2)).getD [], σ)
 
+/-! ## Which exception *object* reaches the caller: `_exec_template`, `_render_error`, `_include_file`
+
+The semantics above identifies an exception with a code.  For "the original exception object propagates
+unchanged" the object matters: its identity, its class, its constructor arguments, and whether its class derives
+from `Exception` (`_exec_template` has `except Exception:` and a bare `except:`; `_include_file` only the
+former). -/
+
+structure ExcObj where
+  cls : Nat                 -- the class
+  ident : Nat               -- identity of the object
+  args : List Nat           -- constructor arguments
+  isException : Bool        -- does the class derive from `Exception`?
+  deriving DecidableEq, Repr, Inhabited
+
+/-- what `error_handler` / `include_error_handler` is handed -/
+inductive HandlerArg
+  | inst (e : ExcObj)       -- the exception instance (`compat.exception_as()`)
+  | cls (c : Nat)           -- only its class (`sys.exc_info()[0]` in the bare `except:` branch)
+  deriving DecidableEq, Repr, Inhabited
+
+/-- what the caller of `render` / `_include_file` observes -/
+inductive Seen
+  | returned                -- no exception
+  | raised (e : ExcObj)     -- this very object is propagating
+  deriving DecidableEq, Repr, Inhabited
+
+structure ErrTrace where
+  handlerArg : Option HandlerArg
+  seen : Seen
+  page : Bool               -- an error page was rendered
+  deriving DecidableEq, Repr, Inhabited
+
+/-- `_exec_template` + `_render_error`, given that the render callable raised the object `e` -/
+def renderErrorObj (o : Opts) (e : ExcObj) : ErrTrace :=
+  if o.formatExceptions || o.errorHandler.isSome then
+    match o.errorHandler with
+    | some b =>
+      let arg : HandlerArg := if e.isException then .inst e else .cls e.cls
+      -- a false result: `tp, value, tb = sys.exc_info(); raise value.with_traceback(tb)` - the object itself
+      ⟨some arg, if b then .returned else .raised e, false⟩
+    | none => ⟨none, .returned, true⟩       -- the bare `except:` renders the page for every BaseException
+  else ⟨none, .raised e, false⟩
+
+/-- `_include_file`, given that the included template raised `e`: only `except Exception:` -/
+def includeErrorObj (ieh : Option Bool) (e : ExcObj) : ErrTrace :=
+  match ieh with
+  | some b =>
+    if e.isException then ⟨some (.inst e), if b then .returned else .raised e, false⟩   -- bare `raise`
+    else ⟨none, .raised e, false⟩
+  | none => ⟨none, .raised e, false⟩
+
 end MakoModel.Target
